@@ -95,6 +95,37 @@ fn test(c: &Case, st: &mut Stats) -> TestResult {
             let lib = guard(|| refattrs::lib_from_raw(kind, &raw))
                 .map_err(|p| Fail::new("c08-panic", format!("{:?}::from_raw panicked on {}: {}", kind, hex_short(v), p)))?;
             let verdict = refattrs::decode(kind, v, tid);
+            // The header of a raw attribute is a public field: whatever length it claims, the value
+            // bytes are what gets decoded. Demanded here only in the safe direction: no panic, and a
+            // value the RFC does not allow never decodes.
+            {
+                let d = digest(&(kind.code(), v));
+                let claimed = [0usize, 4, 8, 20, 32, v.len() + 1, v.len().saturating_sub(1), v.len() + 4][(d % 8) as usize];
+                if claimed != v.len() {
+                    let mut odd = raw.clone();
+                    odd.header = RawAttribute::new(AttributeType::new(kind.code()), &vec![0u8; claimed]).header;
+                    let r = guard(|| refattrs::lib_from_raw(kind, &odd)).map_err(|p| {
+                        Fail::new(
+                            "c08-panic",
+                            format!("{:?}::from_raw panicked on the {}-byte value {} under a header that claims {} bytes: {}", kind, v.len(), hex_short(v), claimed, p),
+                        )
+                    })?;
+                    if let (Verdict::Reject(why), Ok(_)) = (&verdict, &r) {
+                        return Err(Fail::new(
+                            "c08-accepted-invalid",
+                            format!(
+                                "{:?}: the {}-byte value {} is not a valid encoding ({}) but decodes when the raw attribute's header claims {} bytes",
+                                kind,
+                                v.len(),
+                                hex_short(v),
+                                why,
+                                claimed
+                            ),
+                        ));
+                    }
+                    st.class("decoded under a header that claims another length");
+                }
+            }
             match (&verdict, &lib) {
                 (Verdict::Accept(f), Ok(t)) => {
                     let got = t.fields(tid);
